@@ -7,7 +7,7 @@ use std::collections::BTreeMap;
 
 pub fn monitor() -> Monitor {
   Monitor { id: "C15",
-    rule: "fixed-depth builder: depth 0..6 and 29, flag, buffer capacity 1..40 (and 10^4), push sequences: random, increasing runs, decreasing runs, few distinct values (massive duplicates), clustered runs starting on / off 4^k-aligned cells with repeated pushes, empty; oracle = sorted-dedup of the pushes. pack: random valid trees (depth_max 1..5, 1-3 base cells, flags mixed or all full) pushed through to_bmoc_packing; lower depth: the same trees through to_lower_depth_bmoc(_packing) for every new depth < depth_max. Non-trivial = sequence with at least one duplicate or out-of-order push and more pushes than the capacity (forces intermediate merges), or tree containing 4 full siblings (pack must act) / cells deeper than the new depth.",
+    rule: "fixed-depth builder: depth 0..6 and 29, flag, buffer capacity 1..40 (and 10^4), push sequences: random, increasing runs, decreasing runs, few distinct values (massive duplicates), clustered runs starting on / off 4^k-aligned cells with repeated pushes, empty; plus histories in which ONE builder serves 3 successive builds (to_bmoc leaves an empty builder; the next build often starts with the last value of the previous one): build k must cover exactly what was pushed since build k-1; oracle = sorted-dedup of the pushes. pack: random valid trees (depth_max 1..5, 1-3 base cells, flags mixed or all full) pushed through to_bmoc_packing; lower depth: the same trees through to_lower_depth_bmoc(_packing) for every new depth < depth_max. Non-trivial = sequence with at least one duplicate or out-of-order push and more pushes than the capacity (forces intermediate merges), or tree containing 4 full siblings (pack must act) / cells deeper than the new depth.",
     assumptions: &["model = set of pushed numbers / map deepest cell -> state (bm.rs)"],
     run, replay }
 }
@@ -20,9 +20,53 @@ fn run(ctx: &mut Ctx, _extra: &mut BTreeMap<String, String>) {
   run_sharded(ctx, 16, |c, k| {
     let mut rng = Rng::new(seed, 1500 + k as u64);
     for _ in 0..n_seq / 16 { let case = gen_seq(&mut rng); judge_seq(c, &case); }
+    // the same builder used for several successive builds (to_bmoc hands the result over and leaves an empty builder)
+    for _ in 0..n_seq / 64 { let case = gen_sessions(&mut rng); judge_sessions(c, &case); }
     for _ in 0..n_tree / 16 { let case = gen_tree_case(&mut rng); judge_tree(c, &case); }
     if k == 0 { judge_seq(c, &Case::new("seq").u("depth", 3).b("flag", true).u("cap", 5).ul("seq", &[])); }
   });
+}
+
+fn gen_sessions(rng: &mut Rng) -> Case {
+  let a = gen_seq(rng); let depth = a.gu("depth"); let nh = 12u64 << (2 * depth);
+  let sa = a.gul("seq");
+  let mut sb: Vec<u64> = Vec::new();
+  let nb = rng.below(12) as usize;
+  // the second build often starts with (or contains) values of the first one, in particular its last value
+  if let Some(&l) = sa.last() { match rng.below(4) { 0 => sb.push(l), 1 => { sb.push(l); sb.push(l); } 2 => sb.push(sa[0]), _ => {} } }
+  for _ in 0..nb { sb.push(if rng.coin() && !sa.is_empty() { *rng.pick(&sa) } else { rng.below(nh) }); }
+  let mut sc: Vec<u64> = Vec::new();
+  if rng.coin() { if let Some(&l) = sb.last() { if rng.coin() { sc.push(l); } } for _ in 0..rng.below(6) { sc.push(rng.below(nh)); } }
+  Case::new("sessions").u("depth", depth).b("flag", a.gb("flag")).u("cap", a.gu("cap")).ul("seq", &sa).ul("seq2", &sb).ul("seq3", &sc)
+}
+
+/// successive builds with one builder: build k must cover exactly what was pushed since build k-1, and be None iff that is nothing
+pub fn judge_sessions(ctx: &mut Ctx, c: &Case) {
+  let (depth, flag, cap) = (c.gu("depth") as u8, c.gb("flag"), c.gu("cap") as usize);
+  let seqs = [c.gul("seq"), c.gul("seq2"), c.gul("seq3")];
+  ctx.eval();
+  let r = catch(|| { let mut b = if cap == 0 { BMOCBuilderFixedDepth::new(depth, flag) } else { BMOCBuilderFixedDepth::with_capacity(depth, flag, cap) };
+    let mut out = Vec::new(); for s in seqs.iter() { for &h in s.iter() { b.push(h); } out.push(b.to_bmoc()); } out });
+  ctx.hard("sessions:builder-reused-after-to_bmoc", &[depth as u64, cap as u64, seqs[0].len() as u64, seqs[1].len() as u64, seqs[1].first().copied().unwrap_or(u64::MAX), seqs[0].last().copied().unwrap_or(u64::MAX)]);
+  match r {
+    Err(p) => ctx.violation("fixed-depth-builder-panics", c.clone(), p),
+    Ok(out) => for (k, (res, s)) in out.into_iter().zip(seqs.iter()).enumerate() {
+      let mut want: Vec<u64> = s.clone(); want.sort(); want.dedup();
+      ctx.eval();
+      match res {
+        None => if !want.is_empty() { ctx.violation("builder-returns-nothing-although-cells-were-pushed", c.clone().u("build", k as u64), format!("build {} of a reused builder: {} distinct cells pushed since the previous to_bmoc", k, want.len())); },
+        Some(bm) => {
+          if want.is_empty() { ctx.violation("builder-returns-a-bmoc-although-nothing-was-pushed", c.clone().u("build", k as u64), format!("build {} of a reused builder", k)); continue; }
+          let cells = match walk(&bm, 1 << 16) { Ok(_) => cells_of(&bm), Err(e) => { ctx.violation("builder-result-not-well-formed", c.clone().u("build", k as u64), e); continue; } };
+          if cells.iter().any(|x| x.2 != flag) { ctx.violation("builder-result-cell-with-wrong-flag", c.clone().u("build", k as u64), fmt_cells(&cells)); }
+          let mut got: Vec<u64> = Vec::new(); let mut huge = false;
+          for &(d, h, _) in cells.iter() { let sft = 2 * (depth - d) as u32; let (a, e) = (h << sft, (h + 1) << sft); if e - a > 1 << 20 { huge = true; break; } for x in a..e { got.push(x); } }
+          if huge { ctx.violation("builder-result-covers-far-more-than-pushed", c.clone().u("build", k as u64), fmt_cells(&cells)); }
+          else if got != want { ctx.violation("builder-result-differs-from-the-pushed-set", c.clone().u("build", k as u64), format!("build {} of a reused builder: got {} cells, pushed {} distinct since the previous to_bmoc", k, got.len(), want.len())); }
+        }
+      }
+    }
+  }
 }
 
 fn gen_seq(rng: &mut Rng) -> Case {
@@ -126,5 +170,5 @@ pub fn judge_tree(ctx: &mut Ctx, c: &Case) {
 }
 
 fn replay(ctx: &mut Ctx, c: &Case) {
-  match c.mon() { "seq" => judge_seq(ctx, c), "tree" => judge_tree(ctx, c), m => ctx.inconclusive(&format!("unknown replay monitor {}", m)) }
+  match c.mon() { "seq" => judge_seq(ctx, c), "tree" => judge_tree(ctx, c), "sessions" => judge_sessions(ctx, c), m => ctx.inconclusive(&format!("unknown replay monitor {}", m)) }
 }
